@@ -59,10 +59,10 @@ CHECKS.update({
             'Line: symbolic text of L<=4 (6) characters, 2 (3) cuts: unframe = split on newline, trailing partial line delivered at completion; frame+rechunk+unframe of items. Length-prefix: <=2 (3) items of <=2 bytes, prefix 1/2/4/8 x little/big, all solver-chosen cut pairs and truncation points: items back in order, incomplete trailing frame never delivered; symbolic prefix bytes (any announced length); every run follows an aborted subscription of the same operator object. ' + SYMX,
             'trusted: CrossHair/z3; io.BytesIO replaced by TinyBytesIO (validated against the real class each run)', '4/C15'),
     'C16': ('solver-based: symbolic execution (CrossHair+z3) of the real z/zstd wrapper code over a validated contract stub of the codec',
-            'compress: symbolic chunk contents and codec buffering points -> one well-formed stream of the concatenation, each chunk to the codec once in order, one flush, gzip framing requested; decompress: symbolic payload, 2 solver-chosen cuts -> payload, completes; truncation at any solver-chosen point -> on_error, never on_completed; compressible data (a run token of the stub expands a few stream bytes to 1-8 MiB, zlib max_length / unconsumed_tail protocol modelled): the payload comes out complete whatever the cuts. ' + SYMX,
+            'compress: symbolic chunk contents and codec buffering points -> one well-formed stream (gzip / zstd container, payload in order, one end-of-stream marker) of the concatenation, however the codec buffers; decompress: symbolic payload, 2 solver-chosen cuts -> payload, completes; truncation at any solver-chosen point -> on_error, never on_completed; compressible data (a run token of the stub expands a few stream bytes to 1-8 MiB, zlib max_length / unconsumed_tail protocol modelled): the payload comes out complete whatever the cuts. ' + SYMX,
             'CLAIM IS CONDITIONAL: rxsci wrapper code is correct given a codec honouring vp/stubs/streamcodec.py (its clauses are checked concretely on the real zlib/zstandard each run, incl. standalone gzip/zstd readability); zlib/zstd themselves are outside', '4/C16'),
     'C17': ('solver-based: symbolic execution (CrossHair+z3) of the real codec.py over validated pure-Python incremental codec models',
-            'Code points symbolic over the whole Unicode range minus surrogates, string-list shapes of <=2 (3) code points, first cut concrete per obligation and second solver-chosen: decode(rechunk(encode(items))) concatenates to the items, one chunk per item + final flush, no decode error, BOM exactly once, second subscription as the first; utf-8/16/32, latin-1; the decode path of json.load_from_file. ' + SYMX,
+            'Code points symbolic over the whole Unicode range minus surrogates, string-list shapes of <=2 (3) code points, first cut concrete per obligation and second solver-chosen: decode(rechunk(encode(items))) concatenates to the items, no decode error, BOM exactly once, second subscription as the first; utf-8/16/32, latin-1; the decode path of json.load_from_file. ' + SYMX,
             'CLAIM IS CONDITIONAL on codecs.getincremental* behaving as vp/stubs/codecs_model.py (validated against CPython on a boundary alphabet x all cuts each run)', '4/C17'),
     'C18': ('solver-based: CrossHair+z3 on csv dump/load with symbolic strings; z3 QF_BVFP query over parse_decimal\'s current source re-executed on terms',
             'Strings: every split of <=3 (4) symbolic characters over 1-3 fields mixed with bool/int fields, 5 separators, 2 escape chars: rows round-trip. Numbers: parse_decimal source on (sign, integer digits, fraction digits) terms vs the correctly rounded binary64 value and sign, |I|<1000 (10^6), 1..4 (6) fraction digits, as printed by str(), and texts of 16-17 significant digits (digits above 2^53; the exact quotient modelled with a (72+4k)-bit significand); branches on the sign explored path by path. parse_int on digit strings and its source on terms up to 19 digits. File form with two adjacent short reads at every position, also by name with an explicit encoding. ' + SYMX,
@@ -71,7 +71,7 @@ CHECKS.update({
             'Objects are symbolic texts (any character incl. raw newline, quote, backslash, non-ASCII, astral); dump/load and dump_to_file/load_from_file with compression None/gzip/zstd, two adjacent short reads at every byte position, file object and custom open_obj (also under compression), utf-8 and utf-16: items equal, in order, one per object, empty file loads nothing, file complete and closed when completion is signalled. ' + SYMX,
             'CLAIM IS CONDITIONAL on the stubs LineJSON, codec models, StreamCodec, ShortReadFile (each validated against the real library each run; a real 3000-object multi-chunk file round-trips through the real libraries as a sanity run)', '4/C19'),
     'C20': ('solver-based: symbolic execution (CrossHair+z3) of the real parquet.py dump/load code over a validated contract stub of pyarrow',
-            'N<=8 (12) rows with symbolic values, dump batch size and load batch size solver-chosen in 1..N+1: the file holds exactly the source rows once each in order, batches never exceed batch_size, writer (and file, when opened by path) closed when completion is signalled, a second subscription of the same dump pipeline writes the same file, load returns the rows for every load batch size; a float column over NaN / nulls / signed zeros / infinities / subnormals keeps every cell. ' + SYMX,
+            'N<=8 (12) rows with symbolic values, dump batch size and load batch size solver-chosen in 1..N+1: the file holds exactly the source rows once each in order, writer (and file, when opened by path) closed when completion is signalled, a second subscription of the same dump pipeline writes the same file, load returns the rows for every load batch size; a float column over NaN / nulls / signed zeros / infinities / subnormals keeps every cell. ' + SYMX,
             'CLAIM IS CONDITIONAL on pyarrow behaving as vp/stubs/fakearrow.py for the calls rxsci makes (validated by running identical scenarios through the real pyarrow each run, incl. (2048,1024), (5000,999))', '4/C20'),
 })
 
